@@ -11,7 +11,9 @@ RULE_CORR = ("histories of 1-6 executions on one sandbox: every builtin exceptio
              "__setattr__/__getattribute__, exit()/sys.exit/raise SystemExit, unbounded recursion, 12 compile "
              "failures (incl. NUL byte), every blocked builtin / restricted open / import pedal, errors created in "
              "library and C code and in nested functions, normal programs (some replacing sys.stdout / time.sleep / "
-             "sys.modules entries / their own __builtins__), through run(), call(), evaluate(), 4 tracer styles, "
+             "sys.modules entries / their own __builtins__), each also with a second student file helper.py that the "
+             "code imports (failing before/inside/after the import, or not compiling), through run(), call(), "
+             "evaluate(), 4 tracer styles, "
              "with a pre-installed trace function, optionally with a failure injected into the recording of the "
              "exception; real = pedal.sandbox.commands on MAIN_REPORT, model = Pedal.SandboxExec.runObserved via the "
              "driver; non-trivial = history containing a failing execution")
@@ -33,8 +35,8 @@ def histories(prop, rng, tier):
     sweep = sx.coverage_histories(rng)
     if tier == "quick":
         # the sweep is ~330 short histories; quick runs a seeded third of it plus the fixed essentials
-        keep = [h for h in sweep if rng.random() < 0.34 or h[-1].get("inject")
-                or h[-1]["shape"] in ESSENTIAL_SHAPES]
+        keep = [h for h in sweep if rng.random() < 0.34 or h[-1].get("inject") or h[-1].get("pin")
+                or (h[-1]["shape"] in ESSENTIAL_SHAPES and not h[-1].get("nested"))]
         hs += keep
     else:
         hs += sweep
